@@ -3,6 +3,7 @@ pub mod big;
 pub mod check;
 pub mod known;
 pub mod obs;
+pub mod out;
 pub mod panic_loc;
 pub mod rng;
 pub mod runner;
